@@ -340,7 +340,7 @@ class Await:
         return None
 
 
-def switch_after_call(body, call):
+def switch_after_call(body, call, want_bb=False):
     bb = call.target
     for _ in range(4):
         if bb is None:
@@ -349,7 +349,7 @@ def switch_after_call(body, call):
         if t["k"] == "switch":
             v = switch_on_variant(body, bb)
             if v:
-                return v[2]
+                return (v[2], bb) if want_bb else v[2]
             return None
         if t["k"] in ("goto", "drop"):
             bb = t["target"]
@@ -404,3 +404,20 @@ def payload_source(body, op_or_local, variants=("Some", "Ok", "Continue", "Ready
         if names and all(n in variants for n in names):
             return root(body, p["l"])
     return None
+
+
+def infeasible_continue_blocks(body):
+    """`Err(e)?` / `return Err(e)?`: Try::branch on a literal Err can only take the Break edge; returns the
+    Continue-target blocks of such switches (when they have no other predecessor)."""
+    out = set()
+    for c in body.calls():
+        if strip_generics(c.callee) != "core::ops::try_trait::Try::branch" or not c.args:
+            continue
+        r = root(body, c.args[0], through_calls=())
+        if r[0] == "rv" and r[1]["k"] == "agg" and r[1].get("adt") == "core::result::Result" and r[1]["variant"] == "Err":
+            m = switch_after_call(body, c)
+            if m and "Continue" in m:
+                t = m["Continue"]
+                if len(body.pred_map()[t]) <= 1:
+                    out.add(t)
+    return out
